@@ -286,6 +286,28 @@ class RefTerm:
         self.wrap = False
         return self.h
 
+    def resize_rows(self, new_h):
+        """the terminal gets taller or shorter the way xterm does it: growing pulls lines back from the scrollback (content
+        and cursor move down) as far as there are any; shrinking drops blank rows below the cursor first and scrolls the
+        content up (into the scrollback) only as far as needed to keep the cursor on the screen"""
+        new_h = max(2, new_h)
+        if new_h > self.h:
+            grow = new_h - self.h
+            pulled = min(grow, len(self.scrollback))
+            for _ in range(pulled):
+                self.main.insert(0, self.scrollback.pop())
+            self.main += [[BLANK] * self.w for _ in range(grow - pulled)]
+            self.r += pulled
+        elif new_h < self.h:
+            up = max(0, self.r - (new_h - 1))
+            for _ in range(up):
+                self.scrollback.append(self.main.pop(0))
+            self.r -= up
+            self.main = self.main[:new_h]
+        self.h = new_h
+        self.wrap = False
+        return self.h
+
     def fill_junk(self, junk_seed):
         scr = self.screen
         for y in range(self.h):
